@@ -2,6 +2,7 @@ package main
 
 import (
 	"fmt"
+	"os"
 	"go/token"
 	"go/types"
 	"math/big"
@@ -36,11 +37,75 @@ func (vc *VC) execCall(fx *FuncCtx, fr *Frame, st *State, c *ssa.CallCommon, ins
 }
 
 func (vc *VC) callValue(fx *FuncCtx, st *State, fv Val, args []Val, c *ssa.CallCommon, rt types.Type, instr ssa.Instruction) Val {
+	if fc, isChoice := fv.(*FuncChoice); isChoice {
+		// the callee depends on the path: execute every alternative under its condition and join
+		var outs []*State
+		var rets []Val
+		rest := st.clone()
+		for _, a := range fc.Alts {
+			s := st.clone()
+			s.pc = And(st.pc, a.Cond)
+			rest.pc = And(rest.pc, Not(a.Cond))
+			if s.pc.IsConst && !s.pc.B {
+				continue
+			}
+			r := vc.callValue(fx, s, a.F, args, c, rt, instr)
+			if s.dead {
+				continue
+			}
+			outs = append(outs, s)
+			rets = append(rets, r)
+		}
+		if !(rest.pc.IsConst && !rest.pc.B) {
+			// no recognised alternative applies: an unknown function may be called (everything havocked)
+			r := vc.defaultCall(rest, "unrecognised function value", nil, args, rt, true)
+			outs = append(outs, rest)
+			rets = append(rets, r)
+		}
+		if len(outs) == 0 {
+			st.pc = False()
+			st.dead = true
+			fv2, _ := vc.freshVal("noreturn", rt)
+			return fv2
+		}
+		var res Val
+		for i := len(outs) - 1; i >= 0; i-- {
+			if res == nil {
+				res = rets[i]
+				continue
+			}
+			if rets[i] != nil {
+				if m, ok := mergeVals(outs[i].pc, rets[i], res); ok {
+					res = m
+				}
+			}
+		}
+		m := vc.mergeStates(outs)
+		m.defers = st.defers
+		st.assign(m)
+		return res
+	}
 	f, ok := fv.(*FuncV)
 	if !ok && c != nil && c.Value != nil {
 		if nt, isNamed := types.Unalias(c.Value.Type()).(*types.Named); isNamed && nt.Obj().Pkg() != nil && nt.Obj().Pkg().Path() == "context" && nt.Obj().Name() == "CancelFunc" {
 			// cancelling a context has no effect on repository state
 			return nil
+		}
+	}
+	if !ok && os.Getenv("VCGEN_DEBUG_DYN") != "" {
+		if t, isT := fv.(*Term); isT {
+			fmt.Fprintf(os.Stderr, "dynamic call in %s: term op=%s nargs=%d known=%d\n", funcDisplayName(fx.fn), t.Op, len(t.Args), len(vc.funcTerms))
+			cur := t
+			for d := 0; d < 6 && len(cur.Args) > 0; d++ {
+				fmt.Fprintf(os.Stderr, "   %s(", cur.Op)
+				for _, a := range cur.Args {
+					fmt.Fprintf(os.Stderr, "%s ", a.Op)
+				}
+				fmt.Fprintln(os.Stderr, ")")
+				cur = cur.Args[0]
+			}
+		} else {
+			fmt.Fprintf(os.Stderr, "dynamic call in %s: value %T\n", funcDisplayName(fx.fn), fv)
 		}
 	}
 	if !ok {
@@ -213,7 +278,11 @@ func (vc *VC) callFunction(fx *FuncCtx, st *State, fn *ssa.Function, args []Val,
 			forced = true
 		}
 		if !recursive && len(vc.inlineStk) < maxInlineDepth && (forced || vc.inlineable(fn)) {
-			return vc.inline(fx, st, fn, args, bound, rt)
+			r := vc.inline(fx, st, fn, args, bound, rt)
+			if forced {
+				vc.assumeAfterInline(st, vc.prog.ContractForFunc(fn), fn.Signature, args, r)
+			}
+			return r
 		}
 		vc.unmod[funcDisplayName(fn)+" (no contract, not inlined: default frame)"] = true
 		return vc.defaultCall(st, funcDisplayName(fn), fn, args, rt, true)
@@ -343,6 +412,7 @@ func (vc *VC) bumpAlloc(st *State, results ...Val) {
 	vc.addGlobalFact(Ge(nb, Add(vc.allocBase, IntC(int64(vc.nAlloc)))))
 	vc.allocBase, vc.nAlloc = nb, 0
 	vc.allocBases[nb] = true
+	knownAllocBases[nb] = true
 	var walk func(v Val)
 	walk = func(v Val) {
 		switch x := v.(type) {
@@ -402,6 +472,40 @@ func (vc *VC) touchReachable(st *State, t types.Type, depth int, seen map[string
 	case *types.Tuple:
 		for i := 0; i < u.Len(); i++ {
 			vc.touchReachable(st, u.At(i).Type(), depth+1, seen)
+		}
+	}
+}
+
+// assumeAfterInline: an `inline` contract may carry [assumed] clauses (e.g. "the result is this uninterpreted
+// function of the arguments", i.e. determinism); they are assumed of the executed body's result.
+func (vc *VC) assumeAfterInline(st *State, fc *FuncContract, sig *types.Signature, args []Val, r Val) {
+	if fc == nil || st.dead {
+		return
+	}
+	env := &SpecEnv{vc: vc, st: st, old: st, vars: map[string]*SV{}, pkg: vc.prog.typesPkgOf(fc)}
+	vc.bindParams(env, fc, sig, args)
+	var rs []Val
+	if tv, ok := r.(*TupleV); ok {
+		rs = tv.Vs
+	} else if r != nil {
+		rs = []Val{r}
+	}
+	for i := 0; i < sig.Results().Len() && i < len(rs); i++ {
+		sv := &SV{V: rs[i], T: sig.Results().At(i).Type()}
+		if i < len(fc.Results) {
+			env.vars[fc.Results[i]] = sv
+		}
+		if i == 0 {
+			env.vars["result"] = sv
+		}
+	}
+	for _, e := range fc.Ensures {
+		if !e.Assumed {
+			continue
+		}
+		if g, err := env.evalBool(e.Expr); err == nil {
+			vc.assume(st, g)
+			vc.used["assumed clause of "+fc.Key()+": "+e.Src] = true
 		}
 	}
 }
@@ -510,6 +614,15 @@ func (vc *VC) havocArg(st *State, a Val, t types.Type, why string) {
 			}
 		}
 	case *types.Slice:
+		if sv, ok := a.(*SliceV); ok {
+			st.havocRow(elemKey(u.Elem()), sv.Arr, why)
+			if _, nested := under(u.Elem()).(*types.Basic); nested {
+				return
+			}
+			if _, isStruct := under(u.Elem()).(*types.Struct); isStruct && !hasRefs(u.Elem()) {
+				return
+			}
+		}
 		st.havocPrefix(elemKey(u.Elem()), why)
 		vc.noteHavoc(st, elemKey(u.Elem()))
 	case *types.Pointer:
@@ -734,6 +847,8 @@ func (vc *VC) applyContract(fx *FuncCtx, st *State, fc *FuncContract, sig *types
 			vc.havocAll(st, "modifies through an interface of unknown dynamic type, "+callee)
 		} else if all && pl.Kind == PGlobal && strings.HasPrefix(pl.Key, "ghost:") {
 			st.havocPlace(pl)
+		} else if all && pl.Kind == PHeap && pl.Base != nil && pl.Idx == nil {
+			st.havocRow(pl.Key, pl.Base, "modifies of "+callee)
 		} else if all {
 			st.havocPrefix(pl.Key, "modifies of "+callee)
 			vc.noteHavoc(st, pl.Key)
@@ -880,6 +995,7 @@ func (vc *VC) selectStmt(fx *FuncCtx, fr *Frame, st *State, s *ssa.Select) Val {
 		for _, f := range facts {
 			vc.assume(st, f)
 		}
+		vc.recvFacts(fx, st, st.toTerm(vc.val(fx, fr, ss.Chan), ss.Chan.Type()), fv, et, Eq(idx, IntC(int64(i))))
 		vs = append(vs, fv)
 	}
 	return &TupleV{Vs: vs}
@@ -891,4 +1007,33 @@ func posOf(in ssa.Instruction) token.Pos {
 		return token.NoPos
 	}
 	return in.Pos()
+}
+
+
+// recvFacts applies the `onrecv` assumptions of the function under verification to a value received from ch.
+func (vc *VC) recvFacts(fx *FuncCtx, st *State, ch *Term, v Val, et types.Type, when *Term) {
+	if fx == nil || fx.fc == nil {
+		return
+	}
+	for _, rf := range fx.fc.RecvFacts {
+		env := vc.specEnvFor(fx, st, nil)
+		for n, p := range vc.params {
+			if fx.top {
+				env.vars[n] = p
+			}
+		}
+		cv, err := env.eval(rf.Chan)
+		if err != nil {
+			continue
+		}
+		ct, ok := env.value(cv).(*Term)
+		if !ok || ct != ch {
+			continue
+		}
+		env.vars[rf.Var] = &SV{V: v, T: et}
+		if g, err := env.evalBool(rf.Expr); err == nil {
+			vc.assume(st, Implies(when, g))
+			vc.used["environment assumption on received values: "+rf.Src] = true
+		}
+	}
 }
